@@ -16,6 +16,7 @@ def long_run_probe(tier):
 
         from ..hlib import c19n as N
 
+        os.makedirs(os.path.join(ROOT, "work"), exist_ok=True)
         d = tempfile.mkdtemp(prefix="c19n_", dir=os.path.join(ROOT, "work"))
         try:
             n, bad = N.run_all(d)
